@@ -81,6 +81,27 @@ def gen_instance(rng, cls: str) -> dict:
                 items[1][1] = 1
         return {"name": _name(rng), "W": W, "H": H, "items": items,
                 "cls": cls}
+    if cls == "twins":
+        # repeated items larger than half the bin in both dimensions (each
+        # copy needs its own bin) plus fillers that fit beside / above them
+        W = int(rng.integers(6, 21))
+        H = int(rng.integers(6, 21))
+        items = []
+        for _ in range(int(rng.integers(1, 4))):
+            w = int(rng.integers(W // 2 + 1, W + 1))
+            h = int(rng.integers(H // 2 + 1, H + 1))
+            items.append([w, h, int(rng.integers(2, 5))])
+        for _ in range(int(rng.integers(1, 4))):
+            if rng.integers(2):
+                w = int(rng.integers(1, max(2, W // 2)))
+                h = int(rng.integers(1, H + 1))
+            else:
+                w = int(rng.integers(1, W + 1))
+                h = int(rng.integers(1, max(2, H // 2)))
+            items.append([w, h, int(rng.integers(1, 5))])
+        order = [int(i) for i in rng.permutation(len(items))]
+        return {"name": _name(rng), "W": W, "H": H,
+                "items": [items[i] for i in order], "cls": cls}
     if cls == "general":
         W = int(rng.integers(2, 120))
         H = int(rng.integers(2, 120))
@@ -178,7 +199,7 @@ def base_sequence(desc: dict) -> list[int]:
 
 
 PERM_KINDS = ("random", "sorted", "reversed", "plain", "negated", "bigfirst",
-              "smallfirst")
+              "smallfirst", "runs")
 
 
 def gen_perm(rng, desc: dict, kind: str) -> list[int]:
@@ -195,6 +216,19 @@ def gen_perm(rng, desc: dict, kind: str) -> list[int]:
         p = list(seq)
         rng.shuffle(p)
         return p
+    if kind == "runs":
+        # copies of one item type stay adjacent in one or two runs, each run
+        # with one orientation
+        runs = []
+        for i, r in enumerate(desc["items"], 1):
+            cut = int(rng.integers(0, r[2] + 1)) if r[2] > 1 else 0
+            for ln in (cut, r[2] - cut):
+                if ln:
+                    runs.append([(-i if rng.integers(3) == 0 else i)] * ln)
+        out: list[int] = []
+        for j in rng.permutation(len(runs)):
+            out.extend(runs[int(j)])
+        return out
     if kind in ("bigfirst", "smallfirst"):
         key = {i: r[0] * r[1] for i, r in enumerate(desc["items"], 1)}
         p = sorted(seq, key=lambda i: key[i], reverse=(kind == "bigfirst"))
